@@ -223,6 +223,9 @@ def handle (l : Line) : IO Unit := do
   | "up" => handleUp l
   | "ids" => handleIds l
   | "big" => handleBig l
+  | "httpconc" =>
+    -- concurrent requests to one server: each is all-or-nothing, successful ones have distinct ids
+    IO.println s!"spec {l.id} okall=1 failclean=1 distinct=1 files=1 abortsfail=1"
   | "conc" =>
     -- concurrent creation: what `ids_unique_all_interleavings` promises for every schedule
     IO.println s!"spec {l.id} distinct=1 fmt=1 mono=1 rows=1 atomic=1"
